@@ -4,8 +4,7 @@ import IpfixModel.Spec.C15
 namespace Driver
 open Ipfix
 
-def recordsToken (recs : List (List Value)) : String :=
-  joinOr ";" (recs.map fun r => joinOr "," (r.map valueToken))
+def recordsToken (recs : List (List Value)) : String := recordsTok recs
 
 /-- engine "ie" (C15): see harness/cmd/harness/eng_ie.go for the protocol -/
 def engIE (a : List String) : String :=
